@@ -54,7 +54,8 @@ def make_spec(st, idx, tier):
         fk = dict(FEED, max_polls=int(st.sched.integers(3, 8)), poll_every=(20.0, 90.0), start_polls_after=10.0, p_dup=0.0)
         ops, fstats = schedule_night(st, world, fk)
         return dict(kind="end_to_end", world=world, profile=prof, ops=ops, feed_stats=fstats, sample=int(choice(st.storage, [1, 1, 2])),
-                    page_size=int(choice(st.storage, [1, 2, 3, 1000])))
+                    page_size=int(choice(st.storage, [1, 2, 3, 1000])),
+                    fail_positions=[int(i) for i in st.storage.permutation(8)[: int(choice(st.storage, [0, 0, 1, 2]))]])
     ops, fstats = schedule_night(st, world, FEED)
     # data-entry faults: a version whose party split is wrong (dem under-, gop over-reported at unchanged turnout), so
     # that the next batch has an impossible margin although turnout stays monotone
@@ -270,6 +271,17 @@ def run_end_to_end(spec, stats):
     viol = []
     if not chk.stored:
         return viol
+    # storage faults while reading back: the downloads of some stored versions fail
+    key = f"elex-models-dev/{world['election_id']}/results/{world['office']}/{world['unit_type']}/current.csv"
+    stored_versions = seams.STORAGE.bucket.versions_newest_first(key)
+    newest_first_ids = [v["VersionId"] for v in stored_versions if v["Key"] == key]
+    sampled_pos = list(range(0, len(newest_first_ids), sample))
+    failing = {newest_first_ids[i] for i in spec.get("fail_positions", []) if i < len(newest_first_ids)}
+    if len([i for i in sampled_pos if newest_first_ids[i] not in failing]) == 0:
+        failing = set()
+    seams.STORAGE.bucket.failing_versions = failing
+    if failing:
+        stats.faults["download_failure"] += len(failing)
     h = handler(world, sample=sample)
     try:
         data = h.get_versioned_results()
@@ -279,7 +291,7 @@ def run_end_to_end(spec, stats):
         return [Violation(PROP, "failed", f"{len(chk.stored)} versions were stored but none was read back", dict(mode="end_to_end"))]
     # the versions read back: newest first, every sample-th -> in time order
     n = len(chk.stored)
-    newest_first = list(range(n - 1, -1, -1))[::sample]
+    newest_first = [i for pos, i in enumerate(range(n - 1, -1, -1)) if pos % sample == 0 and (pos >= len(newest_first_ids) or newest_first_ids[pos] not in failing)]
     used = sorted(newest_first)
     hist = {}
     for vi in used:
